@@ -34,7 +34,7 @@ N_RANDOM = {"quick": 40, "thorough": 800}
 N_ROUNDTRIP = {"quick": 8, "thorough": 150}
 REQUIRE = {"texts:on_grid_exact_decimal": 10000, "texts:k_times_fl": 10000, "texts:fl_k_over_tps": 10000, "texts:off_grid": 2000,
            "texts:near_grid": 500, "texts:equal_arrivals": 500, "texts:beyond_end": 100, "texts:large": 10,
-           "roundtrip_pipelines": 500, "deliveries_compared": 40000}
+           "roundtrip_pipelines": 500, "deliveries_compared": 40000, "texts:close_pairs": 60}
 TPS_LIST = [1, 2, 3, 5, 7, 10, 20, 60, 100, 1000, 10000, 100000]
 
 
@@ -110,6 +110,19 @@ def cases(tier, seed, shard, nshards):
         cut = rng.random() < 0.3
         yield {"kind": "texts", "tps": tps, "form": "random", "texts": texts,
                "ticks": max(1, last // 2) if cut else last}
+    for i in range(2 if tier == "quick" else 30):
+        # pairs of distinct arrivals that are extremely close in *relative* terms but lie on
+        # different sides of a tick boundary: they must not be merged into one delivery
+        tps = rng.choice([100, 1000, 10000])
+        texts = []
+        k = rng.randint(20000, 60000)
+        for j in range(rng.randint(2, 6)):
+            k += rng.randint(1, 40)
+            a = Fraction(k, tps)
+            d = Fraction(rng.choice([1, 3, 10, 100]), 10 ** 5) / tps      # 1e-5 .. 1e-3 tick later
+            texts.append(dec_text(a))
+            texts.append(dec_text(a + d))
+        yield {"kind": "texts", "tps": tps, "form": "close-pairs", "texts": texts, "ticks": k + 5}
     if tier == "thorough" or shard < 4:
         tps = rng.choice([10, 100, 1000])
         big = rng.choice([10 ** 6, 3 * 10 ** 6] if tier == "quick" else [10 ** 6, 10 ** 7])
@@ -279,6 +292,8 @@ def run_case(case, mon):
                 mon.count("texts:off_grid")
         if case["form"] == "large":
             mon.count("texts:large", len(texts))
+        if case["form"] == "close-pairs":
+            mon.count("texts:close_pairs", len(texts) // 2)
     seen, order_bad = replay(texts, tps, ticks)
     judge(texts, tps, ticks, seen, order_bad, mon, case.get("form"))
     mon.hit({"tps": tps, "form": case.get("form"), "n": len(texts), "texts_head": texts[:4],
